@@ -3,7 +3,36 @@
 // Lock/channel-level simulation of the real (instrumented) p2p/net/connmgr package; only its
 // exported API is used.
 //
-// MUTATION LOG is at the end of this comment block (filled in after the sensitivity runs).
+// MUTATION LOG (sensitivity; each mutation applied alone to a private copy of the instrumented
+// overlay, never to /repo; 6 workers, budget 25-40 s; "runs" = runs executed by all workers until
+// every worker had its first violation minimised):
+//   required by DESIGN.md / the task
+//   M1  getConnsToClose: grace comparison inverted (!firstSeen.After)      -> closed-in-grace, left-above-low, lower-valued-kept (1st run of every worker)
+//   M2  getConnsToClose: protected check dropped                           -> closed-protected/TrimOpenConns and /background-trim (17 runs)
+//   M3  SortByValueAndStreams: left.value > right.value                    -> lower-valued-kept/TrimOpenConns and /background-trim (9 runs)
+//   M4a Disconnected: connCount.Add(-1) removed                            -> conn-count (7 runs)
+//   M4b Disconnected: extra connCount.Add(-1) for an untracked connection  -> conn-count (8 runs)
+//   M5  UpsertTag: value not updated                                       -> tag-total/value (7 runs)
+//   M6  getConnsToCloseEmergency: protected peers not skipped in phase 1   -> forced-protected-before-unprotected (25 runs)
+//   M7  getConnsToClose: target = ncandidates-low-1                        -> left-above-low/TrimOpenConns and /background-trim (14 runs)
+//   additional
+//   M8  Connected: duplicate notification counted                          -> conn-count
+//   M9  decayer: bump not added to value                                   -> tag-total/value
+//   M10 Connected: firstSeen not refreshed when an early-tag entry converts-> first-seen
+//   M11 getConnsToClose: grace period halved                               -> closed-in-grace
+//   M13 UntagPeer / M14 decay tick / M21 TagPeer: value not (or wrongly) updated -> tag-total/value
+//   M16 getConnsToClose: all three comparisons use low-1                   -> closed-at-or-below-low/TrimOpenConns
+//   M17 ForceTrim: target = count-low+1                                    -> closed-at-or-below-low/ForceTrim
+//   M18 Disconnected: entry kept after the last connection                 -> tag-total/tags, first-seen
+//   M19 Protect: replaces the tag set / M22 Unprotect: leaves an empty set -> protect-result
+//   M20 getConnsToClose: one connection per selected peer                  -> left-above-low
+//   MC2 Connected: connCount load / scheduling point / store (visible under concurrency only)
+//                                                                          -> conn-count/sampled, conn-count (60 runs)
+//   MC4 TagPeer: value read, segment lock released, value written (concurrency only: races with the decayer)
+//                                                                          -> tag-total/value (about 700 runs)
+//   not caught, equivalent mutants: M12 "count <= low" early return removed, M15 "ncandidates < low" early
+//   return removed (target <= 0 in both cases, so nothing is selected anyway).
+//   On the unchanged tree: no violation (see the report / evidence for the run counts).
 //
 // Reading of the statement (weaker reading wherever it is ambiguous, guide rule 1/6):
 //   - "connection count" / "connections of a peer" are the connections the manager was told about
@@ -33,6 +62,7 @@ package c14
 import (
 	"context"
 	"fmt"
+	"os"
 	"runtime"
 	"sort"
 	"strings"
@@ -193,8 +223,10 @@ func (c *sconn) CloseWithError(code network.ConnErrorCode) error {
 		return nil
 	}
 	h.pending.Add(1)
+	h.nPending++
 	simrt.GoNamed(fmt.Sprintf("deliver-c%d", c.idx), func() {
 		defer h.pending.Done()
+		defer func() { h.nPending-- }()
 		if c.delay > 0 {
 			simrt.TimeSleep(c.delay)
 		}
@@ -292,12 +324,14 @@ type H struct {
 	trimByGid  map[int64]*trimRec
 	bgCur      *trimRec
 	pending    simsync.WaitGroup
+	nPending   int
 
 	lastT     time.Duration
 	instStart uint64
 
 	mutations int
 	sig       strings.Builder
+	forgot    map[*mpeer]bool // peers whose tracked connections the manager demonstrably lost (reported by compare)
 }
 
 func (h *H) now() time.Duration { return time.Since(h.t0) }
@@ -438,6 +472,17 @@ func (h *H) disconnected(c *sconn, why string) {
 	h.end(w, func() { h.mDisconnected(c) })
 }
 
+// flush waits (in virtual time) until every pending Disconnected was delivered and the instant is quiescent.
+func (h *H) flush() {
+	for {
+		h.pending.Wait()
+		simrt.WaitIdle()
+		if h.nPending == 0 {
+			return
+		}
+	}
+}
+
 func (h *H) snapshot(rec *trimRec) {
 	rec.count = h.count
 	rec.snap = make([]psnap, len(h.peers))
@@ -482,4 +527,950 @@ func (h *H) trim(kind int, who string) {
 	rec.ret = simrt.Stamp()
 	rec.retT = h.now()
 	delete(h.trimByGid, gid)
+}
+
+// ---- workload ----------------------------------------------------------------------------
+
+const (
+	opConnect = iota
+	opConnectDup
+	opDisconnect
+	opDisconnectDup
+	opTag
+	opUntag
+	opUpsert
+	opBump
+	opRemove
+	opProtect
+	opUnprotect
+	opSleep
+	opTrim
+	opForce
+	opRead
+	opCheckLimit
+	nOps
+)
+
+var opWeights = []int{10, 2, 4, 2, 6, 2, 3, 3, 1, 3, 2, 6, 5, 2, 1, 1}
+
+type op struct {
+	kind, peer, a, b, c int
+}
+
+func genOps(g simrt.Gen, n int, peers []int) []op {
+	ops := make([]op, n)
+	for i := range ops {
+		ops[i] = op{kind: g.Weighted(opWeights...), peer: peers[g.Int(len(peers))], a: g.Int(24), b: g.Int(8), c: g.Int(6)}
+	}
+	return ops
+}
+
+var delays = []time.Duration{0, 0, 1500 * time.Millisecond, 4500 * time.Millisecond, 12500 * time.Millisecond, 31500 * time.Millisecond}
+
+func (h *H) sleepTable() []time.Duration {
+	// the last entry sleeps to the next tick of the background trim loop (ticks at multiples of the
+	// silence period after construction), so that operations race with a background trim
+	t := []time.Duration{time.Second, 5 * time.Second, h.grace, h.grace + time.Second, h.silence, 2*h.silence + time.Second, h.resol, 90 * time.Second,
+		h.silence - h.now()%h.silence}
+	for i, d := range t {
+		if d <= 0 {
+			t[i] = time.Second
+		}
+	}
+	return t
+}
+
+func (h *H) newConn(mp *mpeer, o op) *sconn {
+	c := &sconn{h: h, idx: len(h.conns), mp: mp, opened: time.Now(), streams: o.b % 3, delay: delays[o.c%len(delays)], sync: o.c%len(delays) == 1}
+	c.dir = network.DirOutbound
+	if o.b&4 != 0 {
+		c.dir = network.DirInbound
+	}
+	c.addr = ma.StringCast(fmt.Sprintf("/ip4/10.0.%d.%d/tcp/4001", mp.idx, c.idx))
+	h.conns = append(h.conns, c)
+	return c
+}
+
+// exec runs one operation; who names the issuing task.
+func (h *H) exec(who string, i int, o op) {
+	mp := h.peers[o.peer]
+	cm := h.cm
+	logf := func(format string, a ...any) {
+		h.o.Logf("%s#%d @%v %s", who, i, h.now(), fmt.Sprintf(format, a...))
+	}
+	if h.concurrent {
+		if len(h.o.Violations) > 0 {
+			return
+		}
+		h.sampledCheck(mp, fmt.Sprintf("before %s#%d", who, i))
+		defer func() { h.sampledCheck(mp, fmt.Sprintf("after %s#%d", who, i)) }()
+	}
+	switch o.kind {
+	case opConnect:
+		c := h.newConn(mp, o)
+		logf("Connected(%s, c%d dir=%v streams=%d delay=%v sync=%v)", mp.name, c.idx, c.dir, c.streams, c.delay, c.sync)
+		h.connected(c)
+	case opConnectDup:
+		l := mp.sortedConns()
+		if len(l) == 0 {
+			logf("skip duplicate Connected(%s): no tracked connection", mp.name)
+			return
+		}
+		c := l[o.a%len(l)]
+		logf("Connected(%s, c%d) duplicate", mp.name, c.idx)
+		h.o.Probe("duplicate-connected")
+		h.connected(c)
+	case opDisconnect:
+		l := mp.sortedConns()
+		if len(l) == 0 {
+			logf("skip Disconnected(%s): no tracked connection", mp.name)
+			return
+		}
+		c := l[o.a%len(l)]
+		logf("Disconnected(%s, c%d)", mp.name, c.idx)
+		h.disconnected(c, "remote")
+	case opDisconnectDup:
+		// a connection of the peer that is not tracked: already disconnected, or never connected
+		var l []*sconn
+		for _, c := range h.conns {
+			if c.mp == mp && !c.tracked && c.everConn {
+				l = append(l, c)
+			}
+		}
+		var c *sconn
+		if len(l) == 0 {
+			c = h.newConn(mp, o)
+			logf("Disconnected(%s, c%d) never connected", mp.name, c.idx)
+		} else {
+			c = l[o.a%len(l)]
+			logf("Disconnected(%s, c%d) duplicate", mp.name, c.idx)
+		}
+		h.o.Probe("duplicate-disconnected")
+		h.disconnected(c, "dup")
+	case opTag:
+		tag, val := fmt.Sprintf("t%d", o.b%3), o.a-5
+		logf("TagPeer(%s, %s, %d)", mp.name, tag, val)
+		w := h.begin(mp, wVal)
+		cm.TagPeer(mp.id, tag, val)
+		h.end(w, func() { h.ensure(mp); mp.tags[tag] = val; h.mutations++ })
+	case opUntag:
+		tag := fmt.Sprintf("t%d", o.b%3)
+		logf("UntagPeer(%s, %s)", mp.name, tag)
+		w := h.begin(mp, wVal)
+		cm.UntagPeer(mp.id, tag)
+		h.end(w, func() {
+			if mp.exists {
+				delete(mp.tags, tag)
+			}
+		})
+	case opUpsert:
+		tag := fmt.Sprintf("t%d", o.b%3)
+		f := func(v int) int { return v + o.a - 3 }
+		desc := fmt.Sprintf("v%+d", o.a-3)
+		if o.c%3 == 2 {
+			f = func(v int) int { return 2*v + 1 }
+			desc = "2v+1"
+		}
+		logf("UpsertTag(%s, %s, %s)", mp.name, tag, desc)
+		var saw, calls int
+		w := h.begin(mp, wVal)
+		cm.UpsertTag(mp.id, tag, func(v int) int { saw = v; calls++; return f(v) })
+		h.end(w, func() {
+			h.ensure(mp)
+			if calls != 1 {
+				h.o.Violate("C14/upsert-calls", "UpsertTag(%s,%s) called the upsert function %d times", mp.name, tag, calls)
+			} else if !mp.unc && saw != mp.tags[tag] {
+				h.o.Violate("C14/tag-total/upsert-saw", "UpsertTag(%s,%s) passed %d to the upsert function, the tag operations so far imply %d", mp.name, tag, saw, mp.tags[tag])
+			}
+			mp.tags[tag] = f(mp.tags[tag])
+			h.mutations++
+		})
+	case opBump:
+		if len(h.dtags) == 0 {
+			logf("skip Bump: no decaying tag")
+			return
+		}
+		k := o.b % len(h.dtags)
+		delta := o.a%7 + 1
+		logf("Bump(%s, %s, %d)", h.dspecs[k].name, mp.name, delta)
+		if err := h.dtags[k].Bump(mp.id, delta); err != nil {
+			h.o.Trouble = "Bump: " + err.Error()
+		}
+		// the effect is applied by the decayer and recorded by the bump function (bumpFn below)
+	case opRemove:
+		if len(h.dtags) == 0 {
+			logf("skip Remove: no decaying tag")
+			return
+		}
+		k := o.b % len(h.dtags)
+		name := h.dspecs[k].name
+		logf("Remove(%s, %s)", name, mp.name)
+		if h.concurrent {
+			// applied asynchronously at an unobservable instant, unordered with queued bumps
+			w := h.begin(mp, wVal|wForever)
+			_ = w
+			mp.unc = true
+			if err := h.dtags[k].Remove(mp.id); err != nil {
+				h.o.Trouble = "Remove: " + err.Error()
+			}
+			return
+		}
+		w := h.begin(mp, wVal)
+		if err := h.dtags[k].Remove(mp.id); err != nil {
+			h.o.Trouble = "Remove: " + err.Error()
+		}
+		simrt.WaitIdle()
+		h.end(w, func() { h.ensure(mp); delete(mp.dec, name) })
+	case opProtect:
+		tag := string(rune('a' + o.b%3))
+		logf("Protect(%s, %s)", mp.name, tag)
+		w := h.begin(mp, wProt)
+		cm.Protect(mp.id, tag)
+		h.end(w, func() { mp.prot[tag] = true })
+	case opUnprotect:
+		tag := string(rune('a' + o.b%3))
+		w := h.begin(mp, wProt)
+		still := cm.Unprotect(mp.id, tag)
+		h.end(w, func() { delete(mp.prot, tag) })
+		logf("Unprotect(%s, %s) = %v", mp.name, tag, still)
+		if still != (len(mp.prot) > 0) {
+			h.o.Violate("C14/protect-result", "Unprotect(%s,%s) = %v, protection tags left in the model: %v", mp.name, tag, still, keys(mp.prot))
+		}
+		q := string(rune('a' + o.a%3))
+		if got := cm.IsProtected(mp.id, q); got != mp.prot[q] {
+			h.o.Violate("C14/protect-result", "IsProtected(%s,%s) = %v, model %v", mp.name, q, got, mp.prot[q])
+		}
+		if got := cm.IsProtected(mp.id, ""); got != (len(mp.prot) > 0) {
+			h.o.Violate("C14/protect-result", "IsProtected(%s,\"\") = %v, model tags %v", mp.name, got, keys(mp.prot))
+		}
+	case opSleep:
+		tab := h.sleepTable()
+		d := tab[o.a%len(tab)]
+		logf("sleep %v", d)
+		simrt.TimeSleep(d)
+	case opTrim:
+		if h.concurrent && o.c%2 == 1 {
+			// race the explicit trim with the background loop's trim (which does not take the trim mutex)
+			d := h.silence - h.now()%h.silence
+			logf("sleep %v to the next background tick", d)
+			simrt.TimeSleep(d)
+		}
+		logf("TrimOpenConns (model count=%d low=%d)", h.count, h.low)
+		h.trim(kTrim, who)
+	case opForce:
+		logf("ForceTrim (model count=%d low=%d)", h.count, h.low)
+		h.trim(kForce, who)
+	case opRead:
+		tr := &cntTracker{lo: h.count - h.remIn, hi: h.count + h.addIn}
+		h.trackers = append(h.trackers, tr)
+		info := cm.GetInfo()
+		for k, x := range h.trackers {
+			if x == tr {
+				h.trackers = append(h.trackers[:k], h.trackers[k+1:]...)
+				break
+			}
+		}
+		logf("GetInfo().ConnCount = %d (model bounds %d..%d)", info.ConnCount, tr.lo, tr.hi)
+		if info.ConnCount < tr.lo || info.ConnCount > tr.hi {
+			h.o.Violate("C14/conn-count/sampled", "GetInfo().ConnCount = %d outside what the notifications delivered or in flight allow (%d..%d)", info.ConnCount, tr.lo, tr.hi)
+		}
+		if info.LowWater != h.low || info.HighWater != h.high || info.GracePeriod != h.grace {
+			h.o.Violate("C14/info-config", "GetInfo() = %+v, configured low=%d high=%d grace=%v", info, h.low, h.high, h.grace)
+		}
+	case opCheckLimit:
+		lim := h.high - 1 + o.a%3
+		err := cm.CheckLimit(limiter(lim))
+		logf("CheckLimit(%d) = %v", lim, err)
+		if (err != nil) != (h.high > lim) {
+			h.o.Violate("C14/check-limit", "CheckLimit(%d) = %v with high watermark %d", lim, err, h.high)
+		}
+	}
+}
+
+type limiter int
+
+func (l limiter) GetConnLimit() int { return int(l) }
+
+func keys(m map[string]bool) []string {
+	l := make([]string, 0, len(m))
+	for k := range m {
+		l = append(l, k)
+	}
+	sort.Strings(l)
+	return l
+}
+
+// ---- decaying tags: harness-supplied deterministic functions, which also are the instants at
+// which the decayer applies a change (the segment lock is held and the value is stored right
+// after the function returns, with no scheduling point in between).
+
+func (h *H) decayFn(sp *dtagSpec) coreconnmgr.DecayFn {
+	return func(v coreconnmgr.DecayingValue) (int, bool) {
+		h.touch()
+		var after int
+		if sp.decayK == 0 {
+			after = v.Value - 1
+		} else {
+			after = v.Value / 2
+		}
+		rm := after <= 0
+		h.o.Probe("decay-tick-applied")
+		h.applied(v.Peer, sp, v.Value, after, rm, "decay")
+		return after, rm
+	}
+}
+
+func (h *H) bumpFn(sp *dtagSpec) coreconnmgr.BumpFn {
+	return func(v coreconnmgr.DecayingValue, delta int) int {
+		h.touch()
+		after := v.Value + delta
+		if sp.bumpK == 1 && after > 9 {
+			after = 9
+		}
+		h.o.Probe("bump-applied")
+		h.applied(v.Peer, sp, v.Value, after, false, "bump")
+		return after
+	}
+}
+
+func (h *H) applied(id peer.ID, sp *dtagSpec, saw, after int, rm bool, what string) {
+	mp := h.byID[id]
+	if mp == nil {
+		h.o.Violate("C14/tag-total/foreign-peer", "%s function of %s called for unknown peer %q", what, sp.name, string(id))
+		return
+	}
+	h.tempRisk(mp)
+	if mp.inflight(wRem) {
+		// a Disconnected that may delete the entry is in flight: what the decayer saw depends on the order
+		if !mp.unc {
+			h.o.Probe("order-dependent-overlap")
+		}
+		mp.unc = true
+	}
+	if !mp.unc && saw != mp.dec[sp.name] {
+		h.o.Violate("C14/tag-total/"+what+"-saw", "%s of %s for %s saw value %d, the operations so far imply %d (@%v)", what, sp.name, mp.name, saw, mp.dec[sp.name], h.now())
+	}
+	st := simrt.Stamp()
+	mp.wins = append(mp.wins, &win{inv: st, ret: st, kind: wVal})
+	h.ensure(mp)
+	if rm {
+		delete(mp.dec, sp.name)
+	} else {
+		mp.dec[sp.name] = after
+	}
+	h.mutations++
+}
+
+// ---- observation against the model at a quiescent instant ------------------------------------
+
+func (h *H) wantTags(mp *mpeer) map[string]int {
+	m := map[string]int{}
+	for k, v := range mp.tags {
+		m[k] = v
+	}
+	for k, v := range mp.dec {
+		m[k] = v
+	}
+	return m
+}
+
+func fmtTags(m map[string]int) string {
+	l := make([]string, 0, len(m))
+	for k, v := range m {
+		l = append(l, fmt.Sprintf("%s=%d", k, v))
+	}
+	sort.Strings(l)
+	return "{" + strings.Join(l, " ") + "}"
+}
+
+func sameTags(a, b map[string]int) bool {
+	if len(a) != len(b) {
+		return false
+	}
+	for k, v := range a {
+		if w, ok := b[k]; !ok || w != v {
+			return false
+		}
+	}
+	return true
+}
+
+// sampledCheck may be called by any task at any time: it asserts only what holds whatever else is in
+// flight. Connections are added by the peer's owner only (sequentially) and removed only by a
+// Disconnected, so every tracked connection for which no Disconnected was ever begun must be
+// listed; an entry that only holds early tags and is still inside the grace period cannot vanish.
+func (h *H) sampledCheck(mp *mpeer, when string) {
+	var cand []*sconn
+	for _, c := range mp.sortedConns() {
+		if c.firstRemIn == 0 {
+			cand = append(cand, c)
+		}
+	}
+	tagsOnly := len(mp.conns) == 0 && mp.exists && mp.temp && !mp.unc && len(mp.tags) > 0 && h.grace > 0 && !mp.inflight(wVal|wAdd|wRem)
+	if len(cand) == 0 && !tagsOnly {
+		return
+	}
+	wt := fmtTags(mp.tags)
+	h.touch()
+	inv := simrt.Stamp()
+	obs := h.cm.GetTagInfo(mp.id)
+	h.touch()
+	ret := simrt.Stamp()
+	// only what was true during the whole read counts
+	var must []string
+	for _, c := range cand {
+		if c.firstRemIn == 0 {
+			must = append(must, c.addr.String())
+		}
+	}
+	tagsOnly = tagsOnly && !mp.unc && !mp.changed(wVal|wAdd|wRem|wLife, inv, ret) && h.now()-mp.firstSeen < h.grace
+	if len(must) == 0 && !tagsOnly {
+		return
+	}
+	h.o.Probe("sampled-peer-check")
+	if obs == nil {
+		h.forgot[mp] = true
+		h.o.Violate("C14/entry-forgotten", "%s: GetTagInfo(%s) = nil, but %v were Connected and no Disconnected was begun for them; early tags %s first seen +%v (now +%v, grace %v)", when, mp.name, must, wt, mp.firstSeen, h.now(), h.grace)
+		return
+	}
+	for _, a := range must {
+		if _, ok := obs.Conns[a]; !ok {
+			h.forgot[mp] = true
+			var g []string
+			for x := range obs.Conns {
+				g = append(g, x)
+			}
+			sort.Strings(g)
+			h.o.Violate("C14/peer-conns/forgotten", "%s: GetTagInfo(%s).Conns = %v lacks %s, which was Connected and for which no Disconnected was begun", when, mp.name, g, a)
+			return
+		}
+	}
+}
+
+// compare checks GetInfo().ConnCount and GetTagInfo of every peer against the model. It must be
+// called at a quiescent instant. when names the point in the history (for the detail only).
+func (h *H) compare(when string) {
+	if got := h.cm.GetInfo().ConnCount; got != h.count {
+		class := "C14/conn-count/too-high"
+		if got < h.count {
+			class = "C14/conn-count/too-low"
+		}
+		h.o.Violate(class, "%s: GetInfo().ConnCount = %d, the Connected/Disconnected notifications delivered so far imply %d", when, got, h.count)
+	}
+	for _, mp := range h.peers {
+		obs := h.cm.GetTagInfo(mp.id)
+		// connections first: they never depend on the order of overlapping operations
+		want := map[string]time.Duration{}
+		for c, at := range mp.conns {
+			want[c.addr.String()] = at
+		}
+		ngot := 0
+		if obs != nil {
+			ngot = len(obs.Conns)
+		}
+		bad := ngot != len(want)
+		if obs != nil {
+			for a := range obs.Conns {
+				if _, ok := want[a]; !ok {
+					bad = true
+				}
+			}
+		}
+		if bad {
+			var g []string
+			if obs != nil {
+				for a := range obs.Conns {
+					g = append(g, a)
+				}
+			}
+			sort.Strings(g)
+			w := make([]string, 0)
+			for a := range want {
+				w = append(w, a)
+			}
+			sort.Strings(w)
+			class := "C14/peer-conns/unknown-conn"
+			if len(g) < len(w) {
+				// the manager no longer knows a connection it was told about and not told to forget
+				class = "C14/peer-conns/forgotten"
+				if obs == nil {
+					class = "C14/entry-forgotten"
+				}
+				h.forgot[mp] = true
+			}
+			h.o.Violate(class, "%s: GetTagInfo(%s).Conns = %v, notifications imply %v", when, mp.name, g, w)
+			continue
+		}
+		if obs != nil && h.stall == 0 {
+			for a, at := range obs.Conns {
+				if at.Sub(h.t0) != want[a] {
+					h.o.Violate("C14/peer-conns/time", "%s: GetTagInfo(%s).Conns[%s] = +%v, Connected was delivered at +%v", when, mp.name, a, at.Sub(h.t0), want[a])
+				}
+			}
+		}
+		if mp.unc {
+			if h.concurrent {
+				continue
+			}
+			// sequential stratum: the ambiguity is over, adopt what the manager settled on
+			h.o.Probe("resync-after-order-dependent-overlap")
+			mp.tags, mp.dec = map[string]int{}, map[string]int{}
+			if obs == nil {
+				if len(mp.conns) == 0 {
+					mp.exists, mp.temp = false, false
+				}
+			} else {
+				for k, v := range obs.Tags {
+					if strings.HasPrefix(k, "d") {
+						mp.dec[k] = v
+					} else {
+						mp.tags[k] = v
+					}
+				}
+				mp.exists = true
+				mp.temp = len(mp.conns) == 0
+				mp.firstSeen = obs.FirstSeen.Sub(h.t0)
+			}
+			mp.unc = false
+			continue
+		}
+		wt := h.wantTags(mp)
+		if obs == nil {
+			if len(mp.conns) == 0 && len(wt) == 0 {
+				mp.exists, mp.temp = false, false
+				continue
+			}
+			if len(mp.conns) == 0 && h.now()-mp.firstSeen >= h.grace {
+				// entry with early tags only, past the grace period: may be dropped
+				h.o.Probe("early-tag-entry-dropped")
+				mp.exists, mp.temp = false, false
+				mp.tags, mp.dec = map[string]int{}, map[string]int{}
+				continue
+			}
+			h.o.Violate("C14/entry-forgotten", "%s: GetTagInfo(%s) = nil, model: conns=%d tags=%s first seen +%v (now +%v, grace %v)", when, mp.name, len(mp.conns), fmtTags(wt), mp.firstSeen, h.now(), h.grace)
+			continue
+		}
+		if !sameTags(obs.Tags, wt) {
+			if len(mp.conns) == 0 && len(obs.Tags) == 0 && h.now()-mp.firstSeen >= h.grace {
+				h.o.Probe("early-tag-entry-dropped")
+				mp.tags, mp.dec = map[string]int{}, map[string]int{}
+				mp.firstSeen = obs.FirstSeen.Sub(h.t0)
+				continue
+			}
+			h.o.Violate("C14/tag-total/tags", "%s: GetTagInfo(%s).Tags = %s, the tag operations so far imply %s", when, mp.name, fmtTags(obs.Tags), fmtTags(wt))
+			continue
+		}
+		if obs.Value != mp.value() {
+			h.o.Violate("C14/tag-total/value", "%s: GetTagInfo(%s).Value = %d, the tags %s sum to %d", when, mp.name, obs.Value, fmtTags(wt), mp.value())
+		}
+		if len(mp.conns) > 0 && h.stall == 0 && obs.FirstSeen.Sub(h.t0) != mp.firstSeen {
+			h.o.Violate("C14/first-seen", "%s: GetTagInfo(%s).FirstSeen = +%v, the first Connected of the tracked set was delivered at +%v", when, mp.name, obs.FirstSeen.Sub(h.t0), mp.firstSeen)
+		}
+	}
+}
+
+// ---- one run -----------------------------------------------------------------------------------
+
+func run(t *testing.T, tape *simrt.Tape) *common.Outcome {
+	g := simrt.Gen{S: tape.G}
+	o := &common.Outcome{}
+	h := &H{o: o, byID: map[peer.ID]*mpeer{}, trimByGid: map[int64]*trimRec{}, forgot: map[*mpeer]bool{}}
+
+	// stratum first
+	concurrent := g.Weighted(3, 2) == 1
+	h.low = g.Range(1, 4)
+	h.high = h.low + g.Int(5)
+	h.grace = []time.Duration{0, 10 * time.Second, 20 * time.Second, time.Minute}[g.Int(4)]
+	h.silence = []time.Duration{10 * time.Second, 5 * time.Second, 30 * time.Second}[g.Int(3)]
+	h.resol = []time.Duration{time.Minute, 10 * time.Second, 30 * time.Second}[g.Int(3)]
+	nPeers := g.Range(2, 8)
+	for i := 0; i < nPeers; i++ {
+		// the last byte selects the manager's segment: let some peers share one
+		seg := g.Int(3)
+		mp := &mpeer{idx: i, name: fmt.Sprintf("p%d", i), id: peer.ID(fmt.Sprintf("peer-%c%c", 'A'+i, 'x'+seg)),
+			conns: map[*sconn]time.Duration{}, tags: map[string]int{}, dec: map[string]int{}, prot: map[string]bool{}}
+		h.peers = append(h.peers, mp)
+		h.byID[mp.id] = mp
+	}
+	nD := g.Int(3)
+	for i := 0; i < nD; i++ {
+		h.dspecs = append(h.dspecs, &dtagSpec{name: fmt.Sprintf("d%d", i), mult: g.Range(1, 2), decayK: g.Int(2), bumpK: g.Int(2)})
+	}
+	all := make([]int, nPeers)
+	for i := range all {
+		all[i] = i
+	}
+	var prefix []op
+	var plans [][]op
+	if !concurrent {
+		prefix = genOps(g, g.Range(20, 80), all)
+	} else {
+		prefix = genOps(g, g.Range(5, 30), all)
+		nT := g.Range(2, 4)
+		// no stalls (h.stall stays 0): every stall lets several background/decayer ticks fire, each of which
+		// costs hundreds of scheduling steps (256 segment locks), each step being a new chance to stall —
+		// the run diverges. Timers still race with ready work at the instants where tasks wake together.
+		for k := 0; k < nT; k++ {
+			// every peer is operated on by one task only (its operations are sequential); trims,
+			// deliveries of Disconnected, the decayer and the background loop run concurrently
+			var own []int
+			for i := 0; i < nPeers; i++ {
+				if i%nT == k {
+					own = append(own, i)
+				}
+			}
+			if len(own) == 0 {
+				own = []int{k % nPeers}
+				// would share a peer with another task: give it trims and sleeps only (below)
+				ops := genOps(g, g.Range(5, 20), own)
+				for i := range ops {
+					switch ops[i].kind {
+					case opSleep, opTrim, opForce, opRead, opCheckLimit:
+					default:
+						ops[i].kind = opTrim
+					}
+				}
+				plans = append(plans, ops)
+				continue
+			}
+			plans = append(plans, genOps(g, g.Range(5, 20), own))
+		}
+	}
+	o.Logf("stratum=%s low=%d high=%d grace=%v silence=%v resolution=%v peers=%d decaying-tags=%d stall=%d",
+		map[bool]string{false: "sequential", true: "concurrent"}[concurrent], h.low, h.high, h.grace, h.silence, h.resol, nPeers, nD, h.stall)
+	for _, mp := range h.peers {
+		o.Logf(" %s id=%q", mp.name, string(mp.id))
+	}
+	for _, sp := range h.dspecs {
+		o.Logf(" %s interval=%dx resolution decay=%s bump=%s", sp.name, sp.mult, []string{"v-1", "v/2"}[sp.decayK], []string{"v+d", "min(v+d,9)"}[sp.bumpK])
+	}
+
+	finished := false
+	res := simrt.Run(t, simrt.Config{StallPermille: h.stall, MaxSteps: 600000, IdleLimit: 3 * time.Hour}, tape.S, func() {
+		h.t0 = time.Now()
+		h.localAddr = ma.StringCast("/ip4/10.9.9.9/tcp/4001")
+		cm, err := connmgr.NewConnManager(h.low, h.high,
+			connmgr.WithGracePeriod(h.grace), connmgr.WithSilencePeriod(h.silence), connmgr.WithClock(clock.New()),
+			connmgr.DecayerConfig(&connmgr.DecayerCfg{Resolution: h.resol, Clock: clock.New()}))
+		if err != nil {
+			o.Trouble = "NewConnManager: " + err.Error()
+			return
+		}
+		h.cm, h.nf = cm, cm.Notifee()
+		for _, sp := range h.dspecs {
+			sp.interval = time.Duration(sp.mult) * h.resol
+			dt, err := cm.RegisterDecayingTag(sp.name, sp.interval, h.decayFn(sp), h.bumpFn(sp))
+			if err != nil {
+				o.Trouble = "RegisterDecayingTag: " + err.Error()
+				return
+			}
+			h.dtags = append(h.dtags, dt)
+		}
+		for i, op := range prefix {
+			h.exec("main", i, op)
+			simrt.WaitIdle()
+			h.compare(fmt.Sprintf("after main#%d", i))
+			if len(o.Violations) > 0 || o.Trouble != "" {
+				break
+			}
+		}
+		if concurrent && len(o.Violations) == 0 && o.Trouble == "" {
+			h.concurrent = true
+			var wg simsync.WaitGroup
+			for k, plan := range plans {
+				wg.Add(1)
+				name := fmt.Sprintf("w%d", k)
+				simrt.GoNamed(name, func() {
+					defer wg.Done()
+					for i, op := range plan {
+						h.exec(name, i, op)
+					}
+				})
+			}
+			wg.Wait()
+		}
+		// let every pending Disconnected be delivered and every queued bump be applied, compare; then
+		// one last trim at a quiescent instant (every oracle applies to it, whatever the history was)
+		h.concurrent = false
+		h.flush()
+		if len(o.Violations) == 0 && o.Trouble == "" {
+			h.compare("at the end")
+		}
+		if len(o.Violations) == 0 && o.Trouble == "" {
+			o.Logf("main @%v final TrimOpenConns (model count=%d low=%d)", h.now(), h.count, h.low)
+			h.trim(kTrim, "main-final")
+			h.flush()
+			h.compare("after the final trim")
+		}
+		h.touch()
+		if err := cm.Close(); err != nil {
+			o.Trouble = "Close: " + err.Error()
+		}
+		finished = true
+	})
+	o.Sched = res
+	o.Virtual = res.Virtual
+	if res.Panic != "" {
+		if strings.Contains(res.Panic, "harness/c14") && !strings.Contains(res.Panic, "p2p/net/connmgr") {
+			o.Trouble = "harness panic: " + firstLines(res.Panic, 8)
+		} else {
+			o.Violate("C14/panic", "%s", firstLines(res.Panic, 14))
+		}
+		return o
+	}
+	if res.StepLimit {
+		o.Trouble = "step limit"
+		return o
+	}
+	if o.Trouble != "" {
+		return o
+	}
+	if res.Stuck || !finished {
+		o.Violate("C14/deadlock", "run did not finish: stuck=%v residue=%v", res.Stuck, res.Residue)
+		return o
+	}
+	if len(res.Residue) > 0 {
+		o.Trouble = fmt.Sprintf("goroutines left after Close: %v", res.Residue)
+		return o
+	}
+	h.checkTrims()
+	fmt.Fprintf(&h.sig, "|count=%d", h.count)
+	for _, mp := range h.peers {
+		fmt.Fprintf(&h.sig, "|%s:%d/%d/%v", mp.name, len(mp.conns), mp.value(), len(mp.prot) > 0)
+	}
+	o.Sig = h.sig.String()
+	return o
+}
+
+func firstLines(s string, n int) string {
+	l := strings.Split(s, "\n")
+	if len(l) > n {
+		l = l[:n]
+	}
+	return strings.Join(l, " | ")
+}
+
+// ---- per-trim oracles (evaluated after the run, when every window is closed) -----------------
+
+func (h *H) checkTrims() {
+	o := h.o
+	closedSomething := false
+	for _, r := range h.trims {
+		if r.kind == kBg {
+			r.ret = r.last
+			r.retT = r.closes[len(r.closes)-1].at
+		}
+	}
+	for ti, r := range h.trims {
+		name := kindName[r.kind]
+		// signature and trace
+		ids := make([]string, len(r.closes))
+		for i, c := range r.closes {
+			ids[i] = fmt.Sprintf("c%d(%s)", c.c.idx, c.c.mp.name)
+		}
+		fmt.Fprintf(&h.sig, "|%d:%s", r.kind, strings.Join(ids, ","))
+		o.Logf("trim %d %s by %s window=[%d,%d] @%v..%v count=%d closed=%v", ti, name, r.who, r.inv, r.ret, r.invT, r.retT, r.count, ids)
+		if len(r.closes) == 0 {
+			if r.count <= h.low {
+				o.Probe("trim-noop-at-or-below-low")
+			} else {
+				o.Probe("trim-noop-above-low")
+			}
+			// a trim that closes nothing still has to respect the bound (oracle d below)
+		} else {
+			closedSomething = true
+			o.Probe("trim-closed")
+		}
+		alone := true
+		for _, x := range h.trims {
+			if x != r && x.inv < r.ret && x.ret > r.inv {
+				alone = false
+			}
+		}
+		if !alone {
+			o.Probe("overlapping-trims")
+		}
+		anyChanged := func(mask int) bool {
+			for _, mp := range h.peers {
+				if mp.changed(mask, r.inv, r.ret) {
+					return true
+				}
+			}
+			return false
+		}
+		if anyChanged(wAdd | wRem | wVal | wProt) {
+			o.Probe("operations-overlapping-a-trim")
+		}
+		// first close per peer, closed set
+		firstClose := map[*mpeer]uint64{}
+		closedHere := map[*sconn]bool{}
+		for _, c := range r.closes {
+			closedHere[c.c] = true
+			if _, ok := firstClose[c.c.mp]; !ok {
+				firstClose[c.c.mp] = c.stamp
+			}
+		}
+		tracked := func(mp *mpeer, c *sconn) bool {
+			for _, x := range r.snap[mp.idx].conns {
+				if x == c {
+					return true
+				}
+			}
+			return false
+		}
+		// (a) nothing closed when the count is at or below the low watermark
+		// (background trims are snapshotted at their first close: removals in the window would hide a higher count)
+		if len(r.closes) > 0 && r.precise && r.count <= h.low && !anyChanged(wAdd) && (r.kind != kBg || !anyChanged(wRem)) {
+			o.Violate("C14/closed-at-or-below-low/"+name, "trim %d (%s): %d connections tracked (low watermark %d) and none being added, but it closed %v", ti, name, r.count, h.low, ids)
+		}
+		// (b) per closed connection
+		for _, c := range r.closes {
+			mp := c.c.mp
+			s := &r.snap[mp.idx]
+			if r.precise && !mp.changed(wAdd|wRem, r.inv, c.stamp) && !tracked(mp, c.c) {
+				o.Violate("C14/closed-untracked-conn/"+name, "trim %d (%s) closed c%d of %s, which the notifications delivered before the trim do not track", ti, name, c.c.idx, mp.name)
+				continue
+			}
+			if r.kind == kForce {
+				continue
+			}
+			if s.prot && !mp.changed(wProt, r.inv, r.ret) {
+				o.Violate("C14/closed-protected/"+name, "trim %d (%s) closed c%d of %s, protected during the whole call", ti, name, c.c.idx, mp.name)
+			}
+			if len(s.conns) > 0 && !s.unc && !mp.changed(wAdd|wRem|wLife, r.inv, c.stamp) && h.inGraceAt(s, c.at) {
+				o.Violate("C14/closed-in-grace/"+name, "trim %d (%s) closed c%d of %s at +%v: first seen +%v, grace period %v", ti, name, c.c.idx, mp.name, c.at, s.firstSeen, h.grace)
+			}
+		}
+		// kept peers: certainly eligible during the whole window, with a tracked connection that was never closed
+		type kept struct {
+			mp   *mpeer
+			open int
+		}
+		var keptElig []kept
+		if r.precise {
+			for _, mp := range h.peers {
+				s := &r.snap[mp.idx]
+				if len(s.conns) == 0 || s.unc || s.prot || h.forgot[mp] || mp.changed(wProt|wAdd|wRem|wLife, r.inv, r.ret) {
+					continue
+				}
+				if r.kind != kForce && !h.pastGraceAt(s, r.invT) {
+					continue
+				}
+				open := 0
+				for _, c := range s.conns {
+					if c.closedAt == 0 || c.closedAt > r.ret {
+						open++
+					}
+				}
+				if open > 0 {
+					keptElig = append(keptElig, kept{mp, open})
+				}
+			}
+		}
+		// (c) no closed peer has a higher value than a kept eligible one
+		for _, mp := range h.peers {
+			fc, ok := firstClose[mp]
+			if !ok || !r.precise {
+				continue
+			}
+			s := &r.snap[mp.idx]
+			if s.unc || mp.changed(wVal, r.inv, fc) {
+				continue
+			}
+			if r.kind == kForce && (s.prot || mp.changed(wProt, r.inv, fc)) {
+				continue
+			}
+			for _, k := range keptElig {
+				q := &r.snap[k.mp.idx]
+				if k.mp == mp || k.mp.changed(wVal, r.inv, r.ret) {
+					continue
+				}
+				o.Probe("value-order-compared")
+				if q.value < s.value {
+					o.Violate("C14/lower-valued-kept/"+name, "trim %d (%s) closed %s (value %d) and kept eligible %s (value %d, %d open connections)", ti, name, mp.name, s.value, k.mp.name, q.value, k.open)
+				}
+			}
+		}
+		// (d) at most low-watermark connections left among the eligible peers
+		if r.precise && alone && !anyChanged(wAdd|wProt) {
+			left := 0
+			var who []string
+			for _, k := range keptElig {
+				// only connections nobody started to disconnect
+				n := 0
+				for _, c := range r.snap[k.mp.idx].conns {
+					if (c.closedAt == 0 || c.closedAt > r.ret) && (c.firstRemIn == 0 || c.firstRemIn > r.ret) {
+						n++
+					}
+				}
+				if n > 0 {
+					left += n
+					who = append(who, fmt.Sprintf("%s:%d", k.mp.name, n))
+				}
+			}
+			o.Probe("left-bound-checked")
+			if left > h.low {
+				o.Violate("C14/left-above-low/"+name, "trim %d (%s): %d open connections left among eligible peers %v, low watermark %d (tracked before: %d)", ti, name, left, who, h.low, r.count)
+			}
+		}
+		// (e) a forced trim closes a protected peer only if every unprotected one was selected
+		if r.kind == kForce {
+			var protClosed *mpeer
+			for mp := range firstClose {
+				if r.snap[mp.idx].prot && !mp.changed(wProt, r.inv, r.ret) && (protClosed == nil || mp.idx < protClosed.idx) {
+					protClosed = mp
+				}
+			}
+			if protClosed != nil {
+				o.Probe("forced-trim-closed-protected")
+				for _, mp := range h.peers {
+					s := &r.snap[mp.idx]
+					if s.prot || len(s.conns) == 0 || h.forgot[mp] || mp.changed(wProt|wAdd|wRem, r.inv, r.ret) {
+						continue
+					}
+					for _, c := range s.conns {
+						if c.closedAt == 0 || c.closedAt > r.ret {
+							o.Violate("C14/forced-protected-before-unprotected", "trim %d (ForceTrim) closed protected %s while c%d of unprotected %s was never closed", ti, protClosed.name, c.idx, mp.name)
+							break
+						}
+					}
+				}
+			}
+			// documentation of ForceTrim (not part of the C14 statement): "trims down to the low watermark"
+			if alone && !anyChanged(wAdd|wRem) && len(r.snap) > 0 {
+				left := 0
+				for _, s := range r.snap {
+					for _, c := range s.conns {
+						if !closedHere[c] {
+							left++
+						}
+					}
+				}
+				if left > h.low {
+					o.Probe("forcetrim-left-above-low-overall")
+					o.Logf("  note: trim %d (ForceTrim) left %d of %d tracked connections un-selected, low watermark %d (its documentation says \"down to the low watermark\"; not part of C14)", ti, left, r.count, h.low)
+					if os.Getenv("C14_FORCETRIM_DOC") != "" {
+						// off by default: ForceTrim's documentation, not the C14 statement
+						o.Violate("C14/doc/forcetrim-left-above-low", "trim %d (ForceTrim) selected %v and left %d of %d tracked connections, low watermark %d", ti, ids, left, r.count, h.low)
+					}
+				}
+			}
+		}
+		// reach probes
+		if r.kind != kForce && r.count > h.low {
+			for _, mp := range h.peers {
+				s := &r.snap[mp.idx]
+				if len(s.conns) > 0 && s.prot {
+					o.Probe("trim-with-protected-peer-above-low")
+				}
+				if len(s.conns) > 0 && h.inGraceAt(s, r.invT) {
+					o.Probe("trim-with-peer-in-grace-above-low")
+				}
+				if len(s.conns) > 1 && firstClose[mp] != 0 {
+					o.Probe("multi-conn-peer-closed")
+				}
+			}
+		}
+	}
+	o.Nontrivial = closedSomething && h.mutations >= 2
 }
